@@ -213,6 +213,31 @@ fn exec(regs: &mut Regs, cx: &mut Cx, op: &Op) -> (String, Vec<usize>, Vec<usize
                 }
                 #[cfg(not(feature = "serde"))]
                 MapOp::Serde(dst, _) => ("[unsupported]".into(), vec![i, *dst], vec![]),
+                #[cfg(feature = "serde")]
+                MapOp::Deser(hint, xs) => {
+                    let enc = ops::serde_rt::enc_of_pairs(xs, *hint);
+                    let c: Option<AnyMap> = match &regs.m[i] {
+                        AnyMap::C0(_) => ops::serde_rt::decode_map::<0>(&enc).map(|m| AnyMap::C0(regs::Caged::new(m))),
+                        AnyMap::C1(_) => ops::serde_rt::decode_map::<1>(&enc).map(|m| AnyMap::C1(regs::Caged::new(m))),
+                        AnyMap::C2(_) => ops::serde_rt::decode_map::<2>(&enc).map(|m| AnyMap::C2(regs::Caged::new(m))),
+                        AnyMap::C3(_) => ops::serde_rt::decode_map::<3>(&enc).map(|m| AnyMap::C3(regs::Caged::new(m))),
+                        AnyMap::C4(_) => ops::serde_rt::decode_map::<4>(&enc).map(|m| AnyMap::C4(regs::Caged::new(m))),
+                        AnyMap::C6(_) => ops::serde_rt::decode_map::<6>(&enc).map(|m| AnyMap::C6(regs::Caged::new(m))),
+                        AnyMap::C64(_) => ops::serde_rt::decode_map::<64>(&enc).map(|m| AnyMap::C64(regs::Caged::new(m))),
+                        AnyMap::C300(_) => ops::serde_rt::decode_map::<300>(&enc).map(|m| AnyMap::C300(regs::Caged::new(m))),
+                    };
+                    let st = match c {
+                        Some(c) => {
+                            let old = std::mem::replace(&mut regs.m[i], c);
+                            ctl::mm(|| drop(old));
+                            "ok"
+                        }
+                        None => "decode-error",
+                    };
+                    (format!("[{},{},{}]", xs.len(), xs.len(), st), vec![i], vec![])
+                }
+                #[cfg(not(feature = "serde"))]
+                MapOp::Deser(..) => ("[unsupported]".into(), vec![i], vec![]),
                 MapOp::Eq(o) => {
                     let a = &regs.m[i];
                     let b = &regs.m[*o];
@@ -331,6 +356,31 @@ fn exec(regs: &mut Regs, cx: &mut Cx, op: &Op) -> (String, Vec<usize>, Vec<usize
                 }
                 #[cfg(not(feature = "serde"))]
                 SetOp::Serde(dst, _) => ("[unsupported]".into(), vec![], vec![i, *dst]),
+                #[cfg(feature = "serde")]
+                SetOp::Deser(hint, xs) => {
+                    let enc = ops::serde_rt::enc_of_keys(xs, *hint);
+                    let c: Option<AnySet> = match &regs.s[i] {
+                        AnySet::C0(_) => ops::serde_rt::decode_set::<0>(&enc).map(|m| AnySet::C0(regs::Caged::new(m))),
+                        AnySet::C1(_) => ops::serde_rt::decode_set::<1>(&enc).map(|m| AnySet::C1(regs::Caged::new(m))),
+                        AnySet::C2(_) => ops::serde_rt::decode_set::<2>(&enc).map(|m| AnySet::C2(regs::Caged::new(m))),
+                        AnySet::C3(_) => ops::serde_rt::decode_set::<3>(&enc).map(|m| AnySet::C3(regs::Caged::new(m))),
+                        AnySet::C4(_) => ops::serde_rt::decode_set::<4>(&enc).map(|m| AnySet::C4(regs::Caged::new(m))),
+                        AnySet::C6(_) => ops::serde_rt::decode_set::<6>(&enc).map(|m| AnySet::C6(regs::Caged::new(m))),
+                        AnySet::C64(_) => ops::serde_rt::decode_set::<64>(&enc).map(|m| AnySet::C64(regs::Caged::new(m))),
+                        AnySet::C300(_) => ops::serde_rt::decode_set::<300>(&enc).map(|m| AnySet::C300(regs::Caged::new(m))),
+                    };
+                    let st = match c {
+                        Some(c) => {
+                            let old = std::mem::replace(&mut regs.s[i], c);
+                            ctl::mm(|| drop(old));
+                            "ok"
+                        }
+                        None => "decode-error",
+                    };
+                    (format!("[{},{},{}]", xs.len(), xs.len(), st), vec![], vec![i])
+                }
+                #[cfg(not(feature = "serde"))]
+                SetOp::Deser(..) => ("[unsupported]".into(), vec![], vec![i]),
                 SetOp::ExtendFrom(o) if *o != i => {
                     let j = *o;
                     let (dst, src) = if i < j {
